@@ -166,6 +166,9 @@ fn parse_delay(
     s: &ParserState,
 ) -> Result<&'static KanataAction> {
     const ERR_MSG: &str = "delay expects a single number (ms, 0-65535)";
+    if ac_params.is_empty() {
+        bail!("{ERR_MSG}");
+    }
     let delay = ac_params[0]
         .atom(s.vars())
         .map(str::parse::<u16>)
